@@ -30,6 +30,9 @@ type Env struct {
 	where string
 	err   []string
 	pats  *[]Term // candidate E-matching patterns collected under a binder
+	// lenient: valid(x) holds for terms covered by the nil policy (entry parameters, getter
+	// results, initialised globals) — used for callee preconditions at call sites
+	lenient bool
 }
 
 func (e *Env) errorf(f string, a ...any) {
@@ -117,10 +120,20 @@ func (e *Env) lookupType(name string) types.Type {
 func (P *Program) pkgByShort(short string) *types.Package {
 	var found *types.Package
 	for path, sp := range P.SSA {
-		if shortPkg(path) == short || sp.Pkg.Name() == short {
+		if shortPkg(path) == short {
 			if strings.HasPrefix(path, modPath) {
 				return sp.Pkg
 			}
+			if found == nil || len(path) < len(found.Path()) {
+				found = sp.Pkg
+			}
+		}
+	}
+	if found != nil {
+		return found
+	}
+	for path, sp := range P.SSA {
+		if sp.Pkg.Name() == short && !strings.HasPrefix(path, modPath) {
 			if found == nil || len(path) < len(found.Path()) {
 				found = sp.Pkg
 			}
@@ -130,6 +143,8 @@ func (P *Program) pkgByShort(short string) *types.Package {
 }
 
 func (e *Env) boolTerm(x *Expr) Term {
+	e.vc.inContract++
+	defer func() { e.vc.inContract-- }()
 	v := e.eval(x)
 	if v.ct.Sort != "Bool" {
 		e.errorf("expected boolean, got %s in %s", v.ct.Sort, x)
@@ -590,7 +605,7 @@ func (e *Env) evalMethod(x *Expr) cval {
 	}
 	// concrete receiver: view it through the interface method of the same name when boxed
 	bx := vc.box(recv.t, recv.ct.T)
-	rs := vc.pureMethodTermsNamed(e.st, "concrete."+typeKey(recv.ct.T)+"."+x.Name, sig, bx, args)
+	rs := vc.pureMethodTerms(e.st, m, bx, args)
 	if len(rs) == 0 {
 		e.errorf("method %s has no result", x.Name)
 		return cval{"0", CT{Sort: "Int"}}
@@ -712,6 +727,20 @@ func (e *Env) evalCall(x *Expr) cval {
 		return cval{sx("s-cap", a.t), I}
 	case "valid":
 		a := argv(0)
+		if e.lenient && vc.trusted[a.t] {
+			return cval{"true", B}
+		}
+		if e.lenient {
+			if p, ok := vc.prov[a.t]; ok {
+				// untouched entry-state value: covered by the configuration well-formedness assumption
+				switch a.ct.Sort {
+				case "Ref":
+					return cval{Or(Not(Eq(a.t, "nilref")), Eq(a.t, p)), B}
+				case "Val":
+					return cval{Or(And(Not(Eq(a.t, "nilval")), sx("vnn", a.t)), Eq(a.t, p)), B}
+				}
+			}
+		}
 		switch a.ct.Sort {
 		case "Ref":
 			return cval{Not(Eq(a.t, "nilref")), B}
